@@ -462,8 +462,8 @@ From J2O Require Import Onnx Opset.
 Import ListNotations.
 Open Scope string_scope.
 Open Scope Z_scope.
-Set Printing Width 1000000.
-Set Printing Depth 1000000.
+Set Printing Width 400.   (* a huge width makes every Eval cost ~0.5 s in the pretty-printer *)
+Set Printing Depth 100000.
 Definition report_ (m : omodel) : option Z * bool * list (string * string) := (declared_opset m, opset_ok m, all_problems m).
 """
 
@@ -475,7 +475,7 @@ def _render(chunk, off):
     return "\n".join(out)
 
 
-_REP = re.compile(r"=\s*\(\s*(Some\s+\(?(-?\d+)\)?(?:%Z)?|None)\s*,\s*(true|false)\s*,\s*(\[.*?\]|nil)\s*\)\s*:\s*option Z \* bool \* list \(string \* string\)", re.S)
+_REP = re.compile(r"=\s*\(\s*(Some\s+\(?(-?\d+)\)?(?:%Z)?|None)\s*,\s*(true|false)\s*,\s*(\[.*?\]|nil)\s*\)\s*:\s*option\s+Z\s+\*\s+bool\s+\*\s+list\s+\(string\s+\*\s+string\)", re.S)
 _PAIR = re.compile(r'\(\s*"((?:[^"]|"")*)"(?:%string)?\s*,\s*"((?:[^"]|"")*)"(?:%string)?\s*\)')
 
 
